@@ -27,35 +27,26 @@ theorem submit_wf (bks : List Bucket) (price fuel : Nat) (db : DB) (h : db.WF) (
   · exact commit_wf db h t
   · exact h
 
+/-- every state reached from the empty one by any sequence of submissions satisfies the invariant, so the
+theorems below apply along every history -/
+theorem reachable_wf (bks : List Bucket) (price fuel : Nat) (txs : List Tx) :
+    (txs.foldl (fun db t => (submit bks price fuel db t).1) DB.empty).WF := by
+  suffices h : ∀ (l : List Tx) (db : DB), db.WF → (l.foldl (fun db t => (submit bks price fuel db t).1) db).WF from
+    h txs DB.empty DB.empty_wf
+  intro l
+  induction l with
+  | nil => intro db h; exact h
+  | cons t rest ih => intro db h; exact ih _ (submit_wf bks price fuel db h t)
+
 /-! ### re-execution over the declared reads reproduces the pre-execution -/
 
-/-- what `preexec` returns, in terms of the final context of the run over the live reader -/
-theorem preexec_eq {bks : List Bucket} {fuel : Nat} {db : DB} {p : Prog} {pre : Pre}
-    (h : preexec bks fuel db p = some pre) :
-    ∃ x, exec bks db.reader p fuel Ctx.init = (x, pre.outcome) ∧ pre.outcome ≠ .error ∧
-      pre.kin = rsetOf bks x.sb ∧ pre.kout = wsetOf bks x.sb ∧ pre.cx = x.m.xf ∧ pre.ev = x.m.ev ∧
-      pre.used = x.m.used ∧ pre.peak = x.m.peak := by
-  unfold preexec at h
-  generalize hx : exec bks db.reader p fuel Ctx.init = res at h
-  obtain ⟨x, o⟩ := res
-  cases o with
-  | error => simp at h
-  | ok =>
-    simp only [Option.some.injEq] at h
-    subst h
-    exact ⟨x, rfl, by simp, rfl, rfl, rfl, rfl, rfl, rfl⟩
-  | failed =>
-    simp only [Option.some.injEq] at h
-    subst h
-    exact ⟨x, rfl, by simp, rfl, rfl, rfl, rfl, rfl, rfl⟩
-
-/-- Re-running the request over the reader built from the returned read set (`XMReaderFromRWSet` of what
-`GenRWSetFromTx` fetches) ends with the same outcome, transfers, events, resource use and write set; and
-every returned read cites the current version. -/
-theorem reexec_of_preexec (bks : List Bucket) (fuel : Nat) (db : DB) (hdb : db.WF) (p : Prog) (pre : Pre)
-    (h : preexec bks fuel db p = some pre) :
+/-- Re-running the request over the reader built from ANY declared read set that contains the returned one
+(`XMReaderFromRWSet` of what `GenRWSetFromTx` fetches for the declared keys) ends with the same outcome,
+transfers, events, resource use and write set; and every returned read cites the current version. -/
+theorem reexec_over_superset (bks : List Bucket) (fuel : Nat) (db : DB) (hdb : db.WF) (p : Prog) (pre : Pre)
+    (h : preexec bks fuel db p = some pre) (kin' : List REntry) (hsup : ∀ e ∈ pre.kin, e ∈ kin') :
     readsCurrent db pre.kin = true ∧
-    ∃ y, exec bks (memReader (rsOf db pre.kin)) p fuel Ctx.init = (y, pre.outcome) ∧
+    ∃ y, exec bks (memReader (rsOf db kin')) p fuel Ctx.init = (y, pre.outcome) ∧
       y.m.xf = pre.cx ∧ y.m.ev = pre.ev ∧ y.m.used = pre.used ∧ y.m.peak = pre.peak ∧
       wsetOf bks y.sb = pre.kout ∧ pre.used ≤ pre.peak := by
   obtain ⟨x, hx, _, hkin, hkout, hcx, hev, hused, hpeak⟩ := preexec_eq h
@@ -79,7 +70,7 @@ theorem reexec_of_preexec (bks : List Bucket) (fuel : Nat) (db : DB) (hdb : db.W
     simp only
     rw [← hcur b k d hm, hv]
   · have hsub : ∀ b k d, (exec bks db.reader p fuel Ctx.init).1.sb.inputs.get b k = some d →
-        find k (rsOf db pre.kin b) = some d := by
+        find k (rsOf db kin' b) = some d := by
       intro b k d hd
       rw [hx] at hd
       have hm : (k, d) ∈ x.sb.inputs b := find_some_mem hd
@@ -88,14 +79,15 @@ theorem reexec_of_preexec (bks : List Bucket) (fuel : Nat) (db : DB) (hdb : db.W
         intro hn
         rw [hconf b hn] at hm
         simp at hm
-      rw [rsOf_mem db pre.kin b k ⟨d.ver, by rw [hkin]; exact mem_rsetOf.mpr ⟨hb, d, hm, rfl⟩⟩, hcur b k d hm]
-    have hfaith : ∀ b k d, find k (rsOf db pre.kin b) = some d → db.reader.get b k = some d := by
+      rw [rsOf_mem db kin' b k ⟨d.ver, hsup _ (by rw [hkin]; exact mem_rsetOf.mpr ⟨hb, d, hm, rfl⟩)⟩,
+        hcur b k d hm]
+    have hfaith : ∀ b k d, find k (rsOf db kin' b) = some d → db.reader.get b k = some d := by
       intro b k d hd
-      rw [reader_get, rsOf_faith db pre.kin b k d hd]
-    obtain ⟨e1, e2, e3⟩ := exec_replay bks hr (rsOf db pre.kin) (rsOf_sorted db pre.kin) hfaith p fuel
+      rw [reader_get, rsOf_faith db kin' b k d hd]
+    obtain ⟨e1, e2, e3⟩ := exec_replay bks hr (rsOf db kin') (rsOf_sorted db kin') hfaith p fuel
       Ctx.init Ctx.init (Inv.init _) (Inv.init _) rfl rfl hsub
     rw [hx] at e1 e2 e3
-    generalize exec bks (memReader (rsOf db pre.kin)) p fuel Ctx.init = res at e1 e2 e3
+    generalize exec bks (memReader (rsOf db kin')) p fuel Ctx.init = res at e1 e2 e3
     obtain ⟨y, o⟩ := res
     simp only at e1 e2 e3
     subst e1
@@ -104,6 +96,15 @@ theorem reexec_of_preexec (bks : List Bucket) (fuel : Nat) (db : DB) (hdb : db.W
     · rw [hused, hpeak]
       have := exec_used_le_peak bks db.reader p fuel Ctx.init (Nat.le_refl _)
       rw [hx] at this; exact this
+
+/-- the special case of exactly the returned read set -/
+theorem reexec_of_preexec (bks : List Bucket) (fuel : Nat) (db : DB) (hdb : db.WF) (p : Prog) (pre : Pre)
+    (h : preexec bks fuel db p = some pre) :
+    readsCurrent db pre.kin = true ∧
+    ∃ y, exec bks (memReader (rsOf db pre.kin)) p fuel Ctx.init = (y, pre.outcome) ∧
+      y.m.xf = pre.cx ∧ y.m.ev = pre.ev ∧ y.m.used = pre.used ∧ y.m.peak = pre.peak ∧
+      wsetOf bks y.sb = pre.kout ∧ pre.used ≤ pre.peak :=
+  reexec_over_superset bks fuel db hdb p pre h pre.kin (fun _ he => he)
 
 /-- outside the transient bucket every returned write is on a key of the returned read set -/
 theorem preexec_writes_read (bks : List Bucket) (hb : transient ∉ bks) (fuel : Nat) (db : DB) (hdb : db.WF)
@@ -162,6 +163,49 @@ theorem preexec_submits_partial (bks : List Bucket) (hb : transient ∉ bks) (pr
   rw [preexec_verifies_partial bks hb price fuel id db hdb p pre h hok hpeak]
   rfl
 
+/-- Declaring additional reads that cite current versions is harmless (the property does not ask for their
+rejection): the transaction still verifies — the re-execution never looks at a key the first run did not. -/
+theorem extra_current_reads_accepted (bks : List Bucket) (hb : transient ∉ bks) (price fuel id : Nat) (db : DB)
+    (hdb : db.WF) (p : Prog) (pre : Pre) (h : preexec bks fuel db p = some pre) (hok : pre.outcome = .ok)
+    (hpeak : pre.peak ≤ pre.used) (extra : List REntry) (hx : readsCurrent db extra = true) :
+    verify bks price fuel db { assemble price id p pre with kin := pre.kin ++ extra } = true := by
+  obtain ⟨hcur, y, hy, hxf, hev, _, hpk, hw, _⟩ :=
+    reexec_over_superset bks fuel db hdb p pre h (pre.kin ++ extra) (fun _ he => List.mem_append_left _ he)
+  have hwr := preexec_writes_read bks hb fuel db hdb p pre h
+  simp only [verify, assemble, Bool.and_eq_true]
+  refine ⟨⟨⟨⟨?_, by simp⟩, subMulti_refl _⟩, ?_⟩, ?_⟩
+  · simp only [readsCurrent, List.all_append, Bool.and_eq_true] at hcur hx ⊢
+    exact ⟨hcur, hx⟩
+  · simp only [reexecOK, hy, hok]
+    simp only [Bool.and_eq_true, decide_eq_true_eq, beq_iff_eq]
+    exact ⟨⟨⟨by rw [hpk]; exact hpeak, by rw [hw]; exact sameSet_refl _⟩, hxf.symm⟩, hev.symm⟩
+  · simp only [writesRead, List.all_eq_true, List.any_eq_true, Bool.and_eq_true, beq_iff_eq]
+    intro w hwm
+    obtain ⟨r, hr, h1, h2⟩ := hwr w hwm
+    exact ⟨r, List.mem_append_left _ hr, h1, h2⟩
+
+/-- Declaring the returned write set in another order is accepted too (`xmodel.Equal` sorts both sides);
+the versions the commit assigns then follow the declared order (`commit_exact`). -/
+theorem permuted_writes_accepted (bks : List Bucket) (hb : transient ∉ bks) (price fuel id : Nat) (db : DB)
+    (hdb : db.WF) (p : Prog) (pre : Pre) (h : preexec bks fuel db p = some pre) (hok : pre.outcome = .ok)
+    (hpeak : pre.peak ≤ pre.used) (kout' : List WEntry) (hlen : kout'.length = pre.kout.length)
+    (h1 : ∀ w ∈ pre.kout, w ∈ kout') (h2 : ∀ w ∈ kout', w ∈ pre.kout) :
+    verify bks price fuel db { assemble price id p pre with kout := kout' } = true := by
+  obtain ⟨hcur, y, hy, hxf, hev, _, hpk, hw, _⟩ := reexec_of_preexec bks fuel db hdb p pre h
+  have hwr := preexec_writes_read bks hb fuel db hdb p pre h
+  simp only [verify, assemble, Bool.and_eq_true]
+  refine ⟨⟨⟨⟨hcur, by simp⟩, subMulti_refl _⟩, ?_⟩, ?_⟩
+  · simp only [reexecOK, hy, hok]
+    simp only [Bool.and_eq_true, decide_eq_true_eq, beq_iff_eq]
+    refine ⟨⟨⟨by rw [hpk]; exact hpeak, ?_⟩, hxf.symm⟩, hev.symm⟩
+    rw [hw]
+    simp only [sameSet, Bool.and_eq_true, beq_iff_eq, List.all_eq_true]
+    exact ⟨hlen, fun w hwm => by simpa using h1 w hwm⟩
+  · simp only [writesRead, List.all_eq_true, List.any_eq_true, Bool.and_eq_true, beq_iff_eq]
+    intro w hwm
+    obtain ⟨r, hr, e1, e2⟩ := hwr w (h2 w hwm)
+    exact ⟨r, hr, e1, e2⟩
+
 /-- the statement without the resource hypothesis -/
 def preexec_verifies_statement : Prop :=
   ∀ (bks : List Bucket), transient ∉ bks → ∀ (price fuel id : Nat) (db : DB), db.WF → ∀ (p : Prog) (pre : Pre),
@@ -201,40 +245,6 @@ theorem commit_exact_live (db : DB) (t : Tx) (b : Bucket) (k : Key) :
       | some (off, v) => if v = 0 then none else some ⟨mkVer t.id off, v⟩
       | none => find k (db.live b) :=
   applyKOut_live t.id b k t.kout _ db
-
-theorem lastW_none (b : Bucket) (k : Key) : ∀ (l : List WEntry) (off : Nat),
-    (∀ w ∈ l, ¬ (w.1 = b ∧ w.2.1 = k)) → lastW b k l off = none := by
-  intro l
-  induction l with
-  | nil => intro _ _; rfl
-  | cons e rest ih =>
-    intro off h
-    simp only [lastW]
-    rw [ih (off + 1) (fun w hw => h w (List.mem_cons_of_mem _ hw))]
-    simp [h e (List.mem_cons_self ..)]
-
-theorem lastW_some (b : Bucket) (k : Key) : ∀ (l : List WEntry) (off : Nat),
-    (∃ w ∈ l, w.1 = b ∧ w.2.1 = k) → ∃ o v, lastW b k l off = some (o, v) ∧ off ≤ o := by
-  intro l
-  induction l with
-  | nil => intro _ h; obtain ⟨w, hw, _⟩ := h; simp at hw
-  | cons e rest ih =>
-    intro off h
-    simp only [lastW]
-    cases hl : lastW b k rest (off + 1) with
-    | some x =>
-      by_cases hr : ∃ w ∈ rest, w.1 = b ∧ w.2.1 = k
-      · obtain ⟨o, v, e1, e2⟩ := ih (off + 1) hr
-        rw [hl] at e1
-        exact ⟨o, v, by rw [← Option.some.inj e1], by omega⟩
-      · have := lastW_none b k rest (off + 1) (fun w hw hc => hr ⟨w, hw, hc⟩)
-        rw [this] at hl; simp at hl
-    | none =>
-      obtain ⟨w, hw, hc⟩ := h
-      rcases List.mem_cons.mp hw with rfl | hw
-      · exact ⟨off, w.2.2, by simp [hc], Nat.le_refl _⟩
-      · obtain ⟨o, v, e1, _⟩ := ih (off + 1) ⟨w, hw, hc⟩
-        rw [hl] at e1; simp at e1
 
 /-- a key the write set does not mention keeps its value and its version -/
 theorem commit_untouched (db : DB) (t : Tx) (b : Bucket) (k : Key)
